@@ -329,17 +329,26 @@ func (m *MonTxIntegrity) Finish(nw *Network) {
 		return
 	}
 	for _, st := range nw.SubmitOrder {
-		sn := nw.Nodes[st.Node]
-		if !sn.babbling() || m.lost[sn.Idx] || st.Inc != sn.Incarnation {
-			continue // accepted by a node that did not keep running
+		// the same bytes may have been submitted several times, at several nodes:
+		// the copies accepted by nodes that kept running must all be committed,
+		// those accepted by a node that was restarted, left or stopped may be
+		mustHave := 0
+		for k, c := range st.ByNode {
+			sn := nw.Nodes[k[0]]
+			if sn.babbling() && !m.lost[sn.Idx] && k[1] == sn.Incarnation {
+				mustHave += c
+			}
+		}
+		if mustHave == 0 {
+			continue // accepted only by nodes that did not keep running
 		}
 		for _, n := range live {
 			c := m.committed[n.App][string(st.Bytes)]
 			nw.Res.count("tx_final_exactly_once_checks", 1)
-			if c != st.Count {
+			if c < mustHave || c > st.Count {
 				nw.violate("C05", "C05:not-exactly-once-after-fair-suffix",
-					fmt.Sprintf("transaction %q accepted by running node %d (submitted %d time(s)) is committed %d time(s) at node %d after the fair suffix", trunc(string(st.Bytes), 50), st.Node, st.Count, c, n.Idx),
-					map[string]interface{}{"node": n.Idx, "submitted_at_step": st.Step, "trace": traceTx(nw, n, st.Bytes)})
+					fmt.Sprintf("transaction %q (submitted %d time(s), %d of them accepted by nodes that kept running) is committed %d time(s) at node %d after the fair suffix", trunc(string(st.Bytes), 50), st.Count, mustHave, c, n.Idx),
+					map[string]interface{}{"node": n.Idx, "submitted_at_step": st.Step, "by_node": fmt.Sprint(st.ByNode), "trace": traceTx(nw, n, st.Bytes)})
 				return
 			}
 		}
